@@ -208,6 +208,10 @@ pub fn c19(r: &mut Report) {
     cases.push(("header log_as not text", get("/m/items/1/2", vec![("x-foo", b"5\xff".to_vec()), ("x-plain", b"6".to_vec())]), Some(("INVALID_ARGUMENT", Some("fooBar")))));
     cases.push(("header default name unparsable", get("/m/items/1/2", vec![("x-foo", b"5".to_vec()), ("x-plain", b"six".to_vec())]), Some(("INVALID_ARGUMENT", Some("plain")))));
     cases.push(("header default name absent", get("/m/items/1/2", vec![("x-foo", b"5".to_vec())]), Some(("INVALID_ARGUMENT", Some("plain")))));
+    cases.push(("optional header not text", get("/m/items/1/2", vec![("x-foo", b"5".to_vec()), ("x-plain", b"6".to_vec()), ("x-safe-opt", b"a\xff\xfe".to_vec())]), Some(("INVALID_ARGUMENT", Some("safeOpt")))));
+    cases.push(("required header twice, once as opaque bytes", get("/m/items/1/2", vec![("x-foo", b"5".to_vec()), ("x-foo", b"\xff\xfe".to_vec()), ("x-plain", b"6".to_vec())]), Some(("INVALID_ARGUMENT", Some("fooBar")))));
+    cases.push(("required header twice, opaque bytes first", get("/m/items/1/2", vec![("x-foo", b"\xff".to_vec()), ("x-foo", b"5".to_vec()), ("x-plain", b"6".to_vec())]), Some(("INVALID_ARGUMENT", Some("fooBar")))));
+    cases.push(("optional header twice, once as opaque bytes", get("/m/items/1/2", vec![("x-foo", b"5".to_vec()), ("x-plain", b"6".to_vec()), ("x-safe-opt", b"a".to_vec()), ("x-safe-opt", b"\xe9".to_vec())]), Some(("INVALID_ARGUMENT", Some("safeOpt")))));
     cases.push(("optional header repeated", get("/m/items/1/2", vec![("x-foo", b"5".to_vec()), ("x-plain", b"6".to_vec()), ("x-safe-opt", b"a".to_vec()), ("x-safe-opt", b"b".to_vec())]), Some(("INVALID_ARGUMENT", Some("safeOpt")))));
     let post = |uri: &'static str, headers: Vec<(&'static str, Vec<u8>)>, body: &'static str| RawReq { method: Method::POST, uri, headers, body: body.as_bytes().to_vec() };
     let auth = || ("authorization", b"Bearer tok".to_vec());
